@@ -160,6 +160,27 @@ fn all_depth1(d: &ListDefs) -> Vec<Node> {
     out
 }
 
+/// A complete depth-2 family: every list function applied to every union / difference / intersection of two list
+/// atoms (what a list still "belongs to" after items were added or removed shows in LIST_ALL / LIST_INVERT).
+fn all_list_fn_of_list_op(d: &ListDefs) -> Vec<Node> {
+    let a = atoms(d);
+    let lists: Vec<&Node> = a.iter().filter(|n| matches!(&n.val, Ok(V::List(_)))).collect();
+    let mut out = Vec::new();
+    for x in lists.iter() {
+        for y in lists.iter() {
+            for op in ["+", "-", "^"] {
+                let Some(inner) = mk_bin(d, x, op, y) else { continue };
+                for f in ["LIST_ALL", "LIST_INVERT", "LIST_COUNT", "LIST_MIN", "LIST_MAX", "LIST_VALUE"] {
+                    if let Some(n) = mk_un(d, f, &inner) {
+                        out.push(n);
+                    }
+                }
+            }
+        }
+    }
+    out
+}
+
 fn random_node(d: &ListDefs, rng: &mut Rng, depth: usize, pool1: &[Node]) -> Option<Node> {
     if depth <= 1 {
         return Some(if rng.chance(1, 8) { rng.pick(&atoms(d)).clone() } else { rng.pick(pool1).clone() });
@@ -202,7 +223,7 @@ pub fn run(cfg: &Cfg) -> i32 {
         cfg,
         "exploration",
         "case = one expression, compiled into its own knot ('rN {expr} end' and '~ out = expr'), reached by a host jump, continued, and compared with an independent evaluator in both its printed form and its stored value (type and value via get_variable). Expressions: ALL operator applications of depth 1 over 38 atoms (int, exactly representable float, bool, string literals and variables; list literals and variables over three LISTs with equal values across lists, mixed-origin lists, an empty list without origin and an emptied list with origin) - every unary operator/function (-, not, FLOOR, CEILING, INT, FLOAT, LIST_COUNT/VALUE/ALL/INVERT/MIN/MAX) and every binary operator/function (+ - * / % == != < <= > >= && || ? !? ^ MIN MAX POW) that the rules give a value for - plus seeded random trees of depth 2-3, list-from-int and LIST_RANGE. Where Ink leaves the choice among items of equal value open (LIST_MIN/MAX ties) any of them is accepted. Expected faults (division by zero) must surface as errors. Non-trivial = every expression with an operator; distinct by expression text.",
-        cfg.pick(8000, 120000),
+        cfg.pick(8000, 1_000_000),
     );
     rep.assumptions.push("the evaluator follows the reference engine's published operator tables: operands are coerced to the higher of (int, float, list, string) with bool counting as int, comparisons/logic yield bool, int '/' and '%' truncate, POW of ints yields a float, list comparisons use min/max of item values with the documented empty-list cases".into());
     let d = defs();
@@ -221,13 +242,26 @@ pub fn run(cfg: &Cfg) -> i32 {
         cases.extend(pool1.iter().cloned());
         rep.exhaustive = Some(true);
     }
-    let nrandom = cfg.get_u64("random", cfg.pick(8000, 200000));
+    let family2 = all_list_fn_of_list_op(&d);
+    rep.extra.insert("list_function_of_list_operation_expressions_total".into(), json!(family2.len()));
+    let base_cases = if cfg.quick() {
+        for n in family2.iter() {
+            if rng.chance(1, 2) {
+                cases.push(n.clone());
+            }
+        }
+        cases.len() as u64
+    } else {
+        cases.extend(family2.iter().cloned());
+        cases.len() as u64
+    };
+    let nrandom = cfg.get_u64("random", cfg.pick(8000, 3_000_000));
     let mut tries = 0;
-    while (cases.len() as u64) < (if cfg.quick() { pool1.len() as u64 / 2 } else { pool1.len() as u64 }) + nrandom && tries < nrandom * 20 {
+    while (cases.len() as u64) < base_cases + nrandom && tries < nrandom * 20 {
         tries += 1;
-        let depth = 2 + rng.below(3);
+        let depth = 2 + rng.below(if cfg.quick() { 3 } else { 4 });
         if let Some(n) = random_node(&d, &mut rng, depth, &pool1) {
-            if n.src.len() < 160 {
+            if n.src.len() < 220 {
                 cases.push(n);
             }
         }
